@@ -118,7 +118,9 @@ type ElementPredicate func(Element) bool
 // To be used in conjunction with FindBy (Element interface)
 func ExactId(s string) ElementPredicate {
 	return func(e Element) bool {
-		if el, ok := e.(BaseElementInterface); ok {
+		// anything that carries an id (base elements, but also the definitions
+		// element itself)
+		if el, ok := e.(interface{ Id() (*Id, bool) }); ok {
 			if id, present := el.Id(); present {
 				return *id == s
 			} else {
